@@ -321,6 +321,11 @@ def c14(ctx):
     results = _parallel(plan, lambda a, i: run_history(a[0], a[1], a[2], wk=rng.choice(["sync", "gthread"]), nopid=len(a) > 3 and a[3],
                                                            extra_args=a[4] if len(a) > 4 else ()), par=11)
     ctx.coverage["real_process_histories"] = len(results)
+    # where a starting master gets its listeners from (specs/Listeners.tla: activation variables, fd:// binds, what is at the
+    # unix path, a taken port), followed on real starts (drift only: not a listed property)
+    from props import listeners
+    listeners.design(ctx)
+    listeners.follow(ctx)
     for unix in (True, False):
         sel = [(t, m) for t, m in results if t["unix"] == unix]
         if not sel:
